@@ -1199,14 +1199,24 @@ func readSectionPart(dec *imapwire.Decoder) (part []int, dot bool) {
 
 type fetchLiteralReader struct {
 	*imapwire.LiteralReader
-	ch chan<- struct{}
+	ch  chan<- struct{}
+	err error
 }
 
 func (lit *fetchLiteralReader) Read(b []byte) (int, error) {
+	if lit.err != nil {
+		return 0, lit.err
+	}
 	n, err := lit.LiteralReader.Read(b)
-	if err == io.EOF && lit.ch != nil {
-		close(lit.ch)
-		lit.ch = nil
+	if err != nil {
+		// Hand the connection back to the read goroutine on any error, not
+		// only at the end of the literal: it'd wait forever otherwise. From
+		// now on the underlying reader isn't ours anymore.
+		lit.err = err
+		if lit.ch != nil {
+			close(lit.ch)
+			lit.ch = nil
+		}
 	}
 	return n, err
 }
